@@ -268,6 +268,13 @@ class Described(Exception):
     pass
 
 
+class _Opts(types.SimpleNamespace):
+    """Option stand-in readable as attribute and as item, like optionsfactory's objects."""
+
+    def __getitem__(self, k):
+        return getattr(self, k)
+
+
 def make_regions_run(nxp, explicit_sol=False):
     """Real makeRegions up to the hand-over to describeSingle/DoubleNull: which X-points are
     kept (normalised psi below psinorm_sol AND inside the wall), in which order, and which
@@ -291,7 +298,7 @@ def make_regions_run(nxp, explicit_sol=False):
         # explicit_sol: the psi_sol option is given; it overrides psinorm_sol (left free: a stale or
         # default value) everywhere -- in particular in deciding which X-points are in range
         psi_sol_given = ctx.real("psi_sol_given") if explicit_sol else None
-        eq.user_options = types.SimpleNamespace(psi_core=None, psinorm_core=pn["core"], psi_sol=psi_sol_given, psinorm_sol=psinorm_sol, psi_sol_inner=None, psinorm_sol_inner=pn["sol_inner"], psi_pf_lower=None, psinorm_pf_lower=pn["pf_lower"], psi_pf_upper=explicit_pf_upper, psinorm_pf_upper=pn["pf_upper"], poloidal_spacing_delta_psi=0.001)
+        eq.user_options = _Opts(psi_core=None, psinorm_core=pn["core"], psi_sol=psi_sol_given, psinorm_sol=psinorm_sol, psi_sol_inner=None, psinorm_sol_inner=pn["sol_inner"], psi_pf_lower=None, psinorm_pf_lower=pn["pf_lower"], psi_pf_upper=explicit_pf_upper, psinorm_pf_upper=pn["pf_upper"], poloidal_spacing_delta_psi=0.001)
         wall = [(1.0, -1.0), (2.0, -1.2), (2.2, 1.0), (0.9, 1.1)]  # anticlockwise, NOT explicitly closed (C11 wall contract)
         eq.wall = [Point2D(*w) for w in wall]
         asked = []
@@ -407,7 +414,7 @@ def run_legs_tail(ctx):
 
         return f
 
-    me = types.SimpleNamespace(Bp_R=field("R"), Bp_Z=field("Z"), user_options=types.SimpleNamespace(leg_trace_atol=1e-8))
+    me = types.SimpleNamespace(Bp_R=field("R"), Bp_Z=field("Z"), user_options=_Opts(leg_trace_atol=1e-8))
     traces = []
 
     def solve_ivp_stub(fun, span, pos, rtol=None, atol=None):
